@@ -2049,6 +2049,144 @@ func relink(c *lib.Ctx, tries int) (fails []lib.OracleFail) {
 	return
 }
 
+// flapRelease: a slow reader whose link is removed and restored while it holds an unanswered request.
+// The requester of the removed link is released with the dropped error at once. Later – after the
+// writer has been idle, served by a second reader that was unlinked again, or after the slow
+// reader's link flapped once more – the slow reader is linked again and gets a new request; it then
+// delivers its LATE answer to the old request (which must go nowhere) and either answers the new
+// request or closes: the new requester gets its own answer, or the dropped error – never the
+// answer to another request (C03: released with a well-formed packet, the real answer or a
+// dropped-packet error; C01: a late answer over a removed link is credited to no write).
+func flapRelease(c *lib.Ctx, tries int) (fails []lib.OracleFail) {
+	send := func(w *packet.Writer, v int) chan reqRes {
+		res := make(chan reqRes, 1)
+		go func() {
+			var rr reqRes
+			defer func() {
+				if p := recover(); p != nil {
+					rr.panicked = fmt.Sprint(p)
+				}
+				res <- rr
+			}()
+			rr.pck = packet.Send(w, packet.New(types.NewInt64(int64(v))))
+		}()
+		return res
+	}
+	await := func(res chan reqRes) (string, bool) {
+		select {
+		case rr := <-res:
+			if rr.panicked != "" {
+				return "panic: " + rr.panicked, true
+			}
+			return canon(rr.pck), true
+		case <-time.After(watchdog):
+			return "", false
+		}
+	}
+	take := func(r *packet.Reader) bool {
+		select {
+		case <-r.Read():
+			return true
+		case <-time.After(watchdog):
+			return false
+		}
+	}
+	for i := 0; i < tries; i++ {
+		between, served, ending := i%3, 1+(i/3)%3, (i/9)%2
+		var steps []string
+		bad := func(class, what string) {
+			fails = append(fails, lib.OracleFail{Class: class, What: "flapping link: " + what, Replay: strings.Join(steps, "; ")})
+		}
+		w := packet.NewWriter()
+		slow, other := packet.NewReader(), packet.NewReader()
+		w.Link(slow)
+		res1 := send(w, 1)
+		steps = append(steps, "w.Link(slow)", "go Send(w, 1)", "<-slow.Read()")
+		if !take(slow) {
+			bad("lost-request", "request 1 never reached the reader")
+			return
+		}
+		w.Unlink(slow)
+		steps = append(steps, "w.Unlink(slow)")
+		if got, ok := await(res1); !ok {
+			bad("blocked", "the requester of an unlinked reader was not released")
+			return
+		} else if got != "E0" {
+			bad("wrong-answer", "request 1 (its only reader unlinked before answering) returned "+got+", not the dropped error")
+		}
+		switch between {
+		case 1: // a second reader serves some requests and is unlinked while the writer is idle
+			w.Link(other)
+			steps = append(steps, "w.Link(other)")
+			for k := 0; k < served; k++ {
+				v := 10 + k
+				res := send(w, v)
+				if !take(other) {
+					bad("lost-request", "a request never reached the second reader")
+					return
+				}
+				other.Receive(packet.New(types.NewInt64(int64(100 + v))))
+				steps = append(steps, fmt.Sprintf("go Send(w, %d); <-other.Read(); other.Receive(%d)", v, 100+v))
+				if got, ok := await(res); !ok || got != fmt.Sprintf("v%d", 100+v) {
+					bad("wrong-answer", fmt.Sprintf("request %d answered by the second reader with %d returned %q", v, 100+v, got))
+				}
+			}
+			w.Unlink(other)
+			steps = append(steps, "w.Unlink(other)")
+		case 2: // the slow reader's link flaps once more while the writer is idle
+			w.Link(slow)
+			w.Unlink(slow)
+			steps = append(steps, "w.Link(slow); w.Unlink(slow)")
+		}
+		w.Link(slow)
+		steps = append(steps, "w.Link(slow)")
+		var news []chan reqRes
+		for k := 0; k < served; k++ {
+			news = append(news, send(w, 2+k))
+			steps = append(steps, fmt.Sprintf("go Send(w, %d); <-slow.Read()", 2+k))
+			if !take(slow) {
+				bad("lost-request", "a request after the relink never reached the reader")
+				return
+			}
+		}
+		// the late answer to request 1
+		slow.Receive(packet.New(types.NewInt64(101)))
+		steps = append(steps, "slow.Receive(101) – the late answer to request 1")
+		if ending == 0 {
+			for k := range news {
+				slow.Receive(packet.New(types.NewInt64(int64(102 + k))))
+				steps = append(steps, fmt.Sprintf("slow.Receive(%d)", 102+k))
+			}
+		} else {
+			slow.Close()
+			steps = append(steps, "slow.Close()")
+		}
+		for k, res := range news {
+			want := fmt.Sprintf("v%d", 102+k)
+			if ending == 1 {
+				want = "E0"
+			}
+			got, ok := await(res)
+			if !ok {
+				bad("blocked", fmt.Sprintf("the requester of request %d was not released", 2+k))
+				return
+			}
+			if got != want {
+				bad("wrong-answer", fmt.Sprintf("request %d returned %s; it is owed %s (the late answer to request 1 is owed to nobody)", 2+k, got, want))
+			}
+		}
+		c.Hit(fmt.Sprintf("flapping-link-between-%d-ending-%d", between, ending))
+		c.Count("")
+		w.Close()
+		slow.Close()
+		other.Close()
+		if len(fails) > 0 {
+			return
+		}
+	}
+	return
+}
+
 // ---------------------------------------------------------------- Run
 
 func progressPath(c *lib.Ctx) string {
@@ -2263,6 +2401,7 @@ func Run(c *lib.Ctx) {
 
 	// 5. re-wiring a writer whose readers are closed (C03.relink_can_increase, C03.relink_released; covered by C03.teardown_releases_readers)
 	fails = append(fails, relink(c, c.Scale(60, 300))...)
+	fails = append(fails, flapRelease(c, c.Scale(54, 270))...)
 
 	for k, n := range knownSeen {
 		c.Extra["known-"+k] = fmt.Sprintf("%d oracle failures of this class were attributed to the known finding", n)
